@@ -131,7 +131,48 @@ Theorem C20_K9_ref_names_key : forall D ar q defs pl name tn, In D [DRAFT_2020_1
 Proof. exact K9_ref_shape. Qed.
 Print Assumptions C20_K9_ref_names_key.
 
+(* a PASSED context: explicit ref_prefix argument (stripped) > the context's own ref_prefix (as is) >
+   pointer of the effective dialect (dialect argument, else the context's); same order for all_refs;
+   the definitions dict of the passed context is the one the build writes into *)
+Theorem C20_K9_passed_context : forall cD (car: option bool) cq defs pl wd (ar: option bool) D p,
+  In cD [DRAFT_2020_12; OPEN_API_3_1] -> In D dialects ->
+  let c0 := KNs [("dialect", cD); ("definitions", defs); ("all_refs", opt_bool car); ("ref_prefix", opt_str cq); ("plugins", pl)] in
+  exists c, build_ctx c0 wd (opt_bool ar) D (opt_str p) (KTuple []) = Ok c
+    /\ k_getattr2 c (KStr "ref_prefix") =
+       Ok (KStr (match p with
+                 | Some p' => rstrip_slash p'
+                 | None => match cq with Some q => q | None => pointer_of (pick_dialect D cD) end
+                 end))
+    /\ k_getattr2 c (KStr "all_refs") =
+       Ok (match ar with
+           | Some b => KBool b
+           | None => match car with Some b => KBool b | None => dialect_all_refs (pick_dialect D cD) end end)
+    /\ k_getattr2 c (KStr "dialect") = Ok (pick_dialect D cD)
+    /\ k_getattr2 c (KStr "definitions") = Ok defs.
+Proof. exact K9_passed_context. Qed.
+Print Assumptions C20_K9_passed_context.
+
 Example C20_K9_nonvacuous :
   exists c, build_ctx KNone (KBool true) KNone OPEN_API_3_1 (KStr "#/x//") (KTuple []) = Ok c
             /\ cfg_of_ctx c = Some (mkcfg true "#/x").
 Proof. eexists. split; reflexivity. Qed.
+
+(* ---- degenerate shapes: a NamedTuple without fields (list and dict form) and Tuple[()] are inside the
+        model grammar, so C20_wf covers them; meta_ok rejects an empty prefixItems / anyOf ---- *)
+Example C20_empty_named_list : forall E cfg fuel st,
+  schema_fuel E cfg fuel (TNamed false [] [] []) st = SOk (arr_sk None None, st)
+  /\ canon (render (arr_sk None None)) = "{4:types5:array}".
+Proof. intros. split; [destruct fuel; reflexivity|reflexivity]. Qed.
+
+Example C20_empty_named_dict : forall E cfg fuel st,
+  exists s, schema_fuel E cfg fuel (TNamed true [] [] []) st = SOk (s, st)
+            /\ canon (render s) = "{4:types6:object20:additionalPropertiesf8:required[]}" /\ meta_ok (render s) = true.
+Proof. intros. eexists. split; [destruct fuel; reflexivity|split; reflexivity]. Qed.
+
+Example C20_meta_rejects_empty_schema_arrays :
+  meta_ok (JObj [("type", JStr "array"); ("prefixItems", JArr [])]) = false /\
+  meta_ok (JObj [("anyOf", JArr [])]) = false /\
+  meta_ok (JObj [("required", JArr [JStr "a"; JStr "a"])]) = false /\
+  meta_ok (JObj [("uniqueItems", JStr "true")]) = false /\
+  meta_ok (JObj [("minItems", JInt (-1))]) = false.
+Proof. repeat split; reflexivity. Qed.
